@@ -68,6 +68,7 @@ func unescape(s string) string {
 	//  \0 NULL, \n \l \r \t \b \f \s for equivalent C escape.
 	buf := &bytes.Buffer{}
 	esc := none
+	percent := false // the last byte was the % that starts a parameter operation
 
 	for i := 0; i < len(s); i++ {
 		c := s[i]
@@ -76,10 +77,18 @@ func unescape(s string) string {
 			switch c {
 			case '\\':
 				esc = escaped
+				percent = false
 			case '^':
-				esc = control
+				if percent {
+					// %^ is the exclusive-or operator, not a control character
+					buf.WriteByte(c)
+					percent = false
+				} else {
+					esc = control
+				}
 			default:
 				buf.WriteByte(c)
+				percent = c == '%' && !percent
 			}
 		case control:
 			buf.WriteByte(c ^ 1<<6)
@@ -93,7 +102,9 @@ func unescape(s string) string {
 					buf.WriteByte(((c - '0') * 64) + ((s[i+1] - '0') * 8) + (s[i+2] - '0'))
 					i = i + 2
 				} else if c == '0' {
-					buf.WriteByte(0)
+					// terminfo(5): \0 produces \200, which behaves as a
+					// null character without terminating the string
+					buf.WriteByte(0x80)
 				}
 			case 'n':
 				buf.WriteByte('\n')
